@@ -234,11 +234,14 @@ def dedup [BEq α] (l : List α) : List α := l.foldl (fun acc a => if acc.conta
 def isDefaultRefSite (x : UnitErr) : Bool :=
   (x.kw == nm! "theta0" && x.e == one) || (x.fn == nm! "PhiManip.phi_1D" && x.kw == nm! "nu" && x.e == one)
 
-/-- (primitive, keyword) pairs of a model, beyond the two defaults above, at which a dimensionless quantity stands for that
+/-- (primitive, keyword) pairs of a run, beyond the two defaults above, at which a dimensionless quantity stands for that
     many reference sizes -/
+def refSitesOf (t : Tr) : List (Name × Name) :=
+  dedup (((unitErrors false t).filter (fun x => !isDefaultRefSite x)).map (fun x => (x.fn, x.kw)))
+
 def refSites (tbl : List Model) (sigs : List Sig) (m : Model) : List (Name × Name) :=
   match symbolicRun tbl sigs m.name (m.paramNames.map .param) with
-  | some t => dedup (((unitErrors false t).filter (fun x => !isDefaultRefSite x)).map (fun x => (x.fn, x.kw)))
+  | some t => refSitesOf t
   | none => []
 
 /-! ## the reference size made explicit -/
@@ -276,6 +279,17 @@ def refExplicit : Tr → Tr
 def modelRefExplicitOK (tbl : List Model) (sigs : List Sig) (m : Model) : Bool :=
   match symbolicRun tbl sigs m.name (m.paramNames.map .param) with
   | some t => unitsTr false (refExplicit t)
+  | none => false
+
+/-- the three unit facts about one model in one pass over its symbolic run: (i) well-united under the reference-size
+    convention, (ii) its reference-size sites are the tabled ones, (iii) the reference-explicit run is strictly well-united
+    unless the model is tabled as keeping the reference size inside a size function -/
+def modelUnitsSummaryOK (tbl : List Model) (sigs : List Sig) (refTable : List (Name × List (Name × Name)))
+    (inside : List Name) (m : Model) : Bool :=
+  match symbolicRun tbl sigs m.name (m.paramNames.map .param) with
+  | some t =>
+      unitsTr true t && (refSitesOf t == (refTable.lookup m.name).getD [])
+        && (unitsTr false (refExplicit t) == !(inside.contains m.name))
   | none => false
 
 end DadiVerif.ModelDSL
